@@ -2,6 +2,7 @@ import JwtModel.Encode
 import JwtProofs.Base64
 import JwtProofs.Decode
 import Props.C12
+import Props.CodecRoundTrip
 /-!
 # C03 — Encode then Decode is lossless for every claim kind
 
@@ -11,8 +12,12 @@ correspondence stream (every exported struct type of both packages: decoded valu
 byte-identical with `encoding/json`) and by the end-to-end round-trip stream with its reflective oracle.
 
 This file holds the obligations that are re-decided against today's schemas, and the leaf round trips.
-The generic tree-level round-trip theorem lives in `Props/CodecRoundTrip.lean` once it is closed; until then
-the end-to-end statement is carried by correspondence + oracle (see the evidence's `theorem_level`).
+The generic tree-level round-trip theorem (`unmarshal (marshal v) = overlay v`, for every schema and value, and
+`VEq (overlay v) v`: nothing is lost but nil-versus-empty and map order) is proved in `JwtProofs/CodecRT.lean` /
+`JwtProofs/CodecEq.lean` and instantiated on today's schemas in `Props/CodecRoundTrip.lean`
+(`v2_payload_lossless`, `v2_account_payload_lossless`). What stays with correspondence + oracle: the text layer
+(`Json.parse (Json.render j) = j`, UTF-8), the kind dispatch of `loadClaims` on the encoded payload, and the
+account loader's tier normalisation (known finding K1).
 -/
 namespace Jwt.C03
 open Jwt Jwt.Codec
